@@ -401,6 +401,247 @@ SMOKE = {
 }
 
 
+# error paths: invalid arguments and missing keys must be reported with LenaException subclasses (or the
+# caller's own exception), never with a NameError (incl. UnboundLocalError) or an AttributeError on a lena module
+_BADPRED = "lambda v: v.no_such_attribute"
+SMOKE_ERRORS = {
+    "lena.context": {
+        "Context": ["P.Context(5)", "P.Context({'a': 1}).b", "P.Context({'a': {'b': 1}}).a.c", "P.Context({'a': 1}, formatter=5)",
+                    "repr(P.Context({1: object()}))"],
+        "UpdateContext": ["P.UpdateContext(5, 1)", "P.UpdateContext('', 1)", "P.UpdateContext('a', '{{x', value=True)",
+                          "P.UpdateContext('a', '{{x}}', value=True, skip_on_missing=True)((5, {}))",
+                          "P.UpdateContext('a', '{{x}}', value=True, skip_on_missing=True, raise_on_missing=True)",
+                          "P.UpdateContext('a', '{{x}}', value=True, default=1, raise_on_missing=True)",
+                          "P.UpdateContext('a', '{{x.y}}', value=True)((5, {'x': 3}))",
+                          "P.UpdateContext('a.b', {'k': 1}, recursively=False)((5, {'a': {'b': {'z': 0}}}))",
+                          "P.UpdateContext('a', 'x.y', raise_on_missing=True)((5, {'x': {}}))",
+                          "P.UpdateContext('a', 'x.y', skip_on_missing=True)((5, {'x': {}}))",
+                          "P.UpdateContext('a', 'x.y', default=7)((5, {'x': {}}))",
+                          "P.UpdateContext('a', 'x.y')((5, {'x': {}}))", "repr(P.UpdateContext('a', 'x.y', default=7))"],
+        "DeleteContext": ["P.DeleteContext(5)", "P.DeleteContext('')", "P.DeleteContext('a.b')((1, {'a': 2}))",
+                          "repr(P.DeleteContext('a.b'))"],
+        "contains": ["P.contains({'a': 1}, 'a.b')", "P.contains(5, 'a')", "P.contains({'a': {'b': 1}}, 'a.b.1')"],
+        "difference": ["P.difference({'a': 1}, 5)", "P.difference(5, {'a': 1})", "P.difference({'a': {'b': 1}}, {'a': {'b': 2}}, level=0)"],
+        "format_context": ["P.format_context(5)", "P.format_context('{{a')", "P.format_context('{{a.b}}')({'a': 1})",
+                           "P.format_context('{a}')({'a': 1})", "P.format_context('{{a}}', 5)"],
+        "format_update_with": ["P.format_update_with('k', '{{a}}', {})", "P.format_update_with('k', 5, {'a': 1})"],
+        "get_recursively": ["P.get_recursively(5, 'a')", "P.get_recursively({'a': 1}, 'a.b')", "P.get_recursively({'a': 1}, {'a': {'b': 'c', 'd': 'e'}})",
+                            "P.get_recursively({'a': 1}, ['a', 'b'], default=0)", "P.get_recursively({'a': 1}, '')"],
+        "intersection": ["P.intersection()", "P.intersection({'a': 1}, {'a': 2}, level=0)", "P.intersection({'a': 1}, foo=1)"],
+        "str_to_dict": ["P.str_to_dict(5)", "P.str_to_dict('a..b', 1)", "P.str_to_dict({'a': 1}, 5)"],
+        "str_to_list": ["P.str_to_list(5)", "P.str_to_list('')"],
+        "to_string": ["P.to_string(object())", "P.to_string({1: {2, 3}})"],
+        "update_nested": ["P.update_nested('k', 5, {})", "P.update_nested('k', {'k': 1}, {'k': 2})", "P.update_nested(5, {}, {})"],
+        "update_recursively": ["P.update_recursively(5, {})", "P.update_recursively({}, 5)", "P.update_recursively({'a': 1}, 'a.b', 2)",
+                               "P.update_recursively({}, '', 2)"],
+        "make_include_exclude_tree": ["P.make_include_exclude_tree(5)", "P.make_include_exclude_tree(['a'], ['a'])",
+                                      "P.make_include_exclude_tree(['a.b'], [''])", "P.make_include_exclude_tree([''], ['a', 'a.b']).get(5)"],
+        "IncludeExcludeTree": ["P.IncludeExcludeTree(5, 5, 5)", "P.IncludeExcludeTree(['a'], {}, True).get({'a': 1, 'b': 2})"],
+    },
+    "lena.core": {
+        "Call": ["P.Call(" + _OBJ + ", call='nope')", "P.Call(" + _OBJ + ", call=5)", "repr(P.Call(abs))"],
+        "FillCompute": ["P.FillCompute(" + _FC2 + ", fill='nope')", "P.FillCompute(" + _FC2 + ", compute=5)"],
+        "FillInto": ["P.FillInto(" + _OBJ + ", fill_into='nope')", "P.FillInto(abs).fill_into(5, 1)",
+                     "P.FillInto(abs, explicit=False)"],
+        "FillRequest": ["P.FillRequest(" + _FC2 + ", bufsize=0, buffer_input=True)", "P.FillRequest(" + _FC2 + ", buffer_input=True, buffer_output=True)",
+                        "P.FillRequest(" + _FC2 + ", reset=True, buffer_input=True)", "P.FillRequest(" + _FC2 + ", buffer_output=True, reset=False).request()",
+                        "P.FillRequest(" + _FC2 + ", buffer_input=True, yield_on_remainder=5, reset=False, fill='f')"],
+        "Run": ["P.Run(" + _OBJ + ", run='nope')", "repr(P.Run(abs))", "list(P.Run(" + _FC2 + ").run(iter([1])))"],
+        "SourceEl": ["P.SourceEl(" + _OBJ + ", call='nope')"],
+        "Sequence": ["P.Sequence(abs, 5)", "P.Sequence(P.Source(" + _SRC + "))", "P.Sequence(abs)[5]", "P.Sequence(abs) == 5"],
+        "Source": ["P.Source(5)", "P.Source(" + _SRC + ", 5)", "list(P.Source(" + _SRC + ", " + _FC2 + ")())"],
+        "Split": ["P.Split([5])", "P.Split([abs], bufsize='x')", "P.Split([abs], copy_buf=5)", "P.Split([" + _FC2 + "]).request()",
+                  "P.Split([P.Source(" + _SRC + "), abs])()", "repr(P.Split([abs, (abs, abs)]))", "P.Split([abs])[3]"],
+        "FillSeq": ["P.FillSeq()", "P.FillSeq(5, " + _FC2 + ")"],
+        "FillComputeSeq": ["P.FillComputeSeq()", "P.FillComputeSeq(" + _FC2 + ", " + _FC2 + ", 5)", "P.FillComputeSeq(5, " + _FC2 + ")"],
+        "FillRequestSeq": ["P.FillRequestSeq()", "P.FillRequestSeq(" + _FC2 + ", bufsize=0, buffer_input=True)",
+                           "P.FillRequestSeq(" + _FC2 + ", reset=False, buffer_input=True, nope=1)"],
+        "LenaSequence": ["P.LenaSequence(abs)[1]", "P.LenaSequence(abs)['a']"],
+        "alter_sequence": ["P.alter_sequence(5)", "P.alter_sequence((abs, 5))"],
+        "flatten": ["P.flatten(5)", "P.flatten([abs, (abs, [abs])])"],
+        "is_source": ["P.is_source(5)", "P.is_source((" + _SRC + ",))"],
+        "is_fill_compute_seq": ["P.is_fill_compute_seq(5)", "P.is_fill_compute_seq((5, 6))"],
+        "is_fill_request_seq": ["P.is_fill_request_seq(5)", "P.is_fill_request_seq((abs, P.FillRequest(" + _FC2 + ", reset=False, buffer_input=True)))"],
+    },
+    "lena.flow": {
+        "Selector": ["P.Selector(" + _BADPRED + ")((1, {}))", "P.Selector(" + _BADPRED + ", raise_on_error=False)((1, {}))",
+                     "P.Selector([int, " + _BADPRED + "])('s')", "P.Selector((int, [str, 5]))", "P.Selector('a.b')((1, {'a': {'b': 2}}))",
+                     "P.Selector('a.b')(1)", "P.Selector({'a': 1})", "repr(P.Selector([int, (str, 'a.b')], raise_on_error=False))",
+                     "P.Selector(int) == P.Selector(int, raise_on_error=False)"],
+        "And": ["P.And([" + _BADPRED + "])(1)", "P.And([" + _BADPRED + "], raise_on_error=False)(1)", "P.And([])(1)", "P.And([5])",
+                "repr(P.And([int, str], raise_on_error=False))"],
+        "Or": ["P.Or([" + _BADPRED + "])(1)", "P.Or([" + _BADPRED + "], raise_on_error=False)(1)", "P.Or([])(1)", "P.Or(5)",
+               "repr(P.Or([int, str], raise_on_error=False))"],
+        "Not": ["P.Not(" + _BADPRED + ")(1)", "P.Not(" + _BADPRED + ", raise_on_error=False)(1)", "P.Not(5)",
+                "repr(P.Not(int, raise_on_error=False))"],
+        "SelectContext": ["P.SelectContext('a.b', " + _BADPRED + ", raise_on_error=False)((0, {'a': {'b': 1}}))",
+                          "P.SelectContext('a.b', " + _BADPRED + ", raise_on_error=False)((0, {'a': 1}))",
+                          "P.SelectContext(5, abs)", "P.SelectContext('a', 5)", "P.SelectContext('a.b', abs)(0)",
+                          "repr(P.SelectContext('a.b', abs, raise_on_error=False))",
+                          "P.SelectContext({'a': 'b'}, lambda v: v > 0)((0, {'a': {'b': 's'}}))"],
+        "Cache": ["P.Cache(5)", "P.Cache('c.pkl', method='nope')", "P.Cache('c.pkl', protocol='x')", "P.Cache('{{a}}.pkl')._set_context({})",
+                  "run(P.Cache('no_dir/c.pkl'), [1])", "P.Cache.cache_exists(5)", "repr(P.Cache('{{a}}.pkl', recompute=True))"],
+        "Count": ["P.Count(5)", "P.Count('c', 'x')", "fc(P.Count('c'), [(1, {'c': 2})])", "P.Count().fill_into(5, 1)"],
+        "CountFrom": ["P.CountFrom('a')", "P.CountFrom(0, 0)", "repr(P.CountFrom(1, 2))"],
+        "Chain": ["P.Chain(5)", "list(P.Chain(5)())", "repr(P.Chain([1], [2]))"],
+        "DropContext": ["P.DropContext()", "P.DropContext(5)", "run(P.DropContext(abs), [('s', {})])"],
+        "Filter": ["P.Filter(" + _BADPRED + ").fill_into(" + _FC2 + ", 1)", "run(P.Filter(" + _BADPRED + "), [1])", "repr(P.Filter(int))"],
+        "GroupBy": ["P.GroupBy('{{a')", "P.GroupBy('{{a}}', merge=5)", "fc(P.GroupBy(('{{a}}', '{{b}}')), [(1, {'a': 1})])",
+                    "fc(P.GroupBy('a', merge='b'), [(1, {'a': {'x': 1}, 'b': 2}), (2, {'a': {'x': 1}, 'b': 3})])",
+                    "fc(P.GroupBy(lambda v: v.nope), [1])", "repr(P.GroupBy('{{a}}'))"],
+        "GroupPlots": ["P.GroupPlots(5)", "P.GroupPlots('{{a}}', select=5)", "P.GroupPlots('{{a}}', transform=5)",
+                       "P.GroupPlots('{{a}}', scale='x')", "run(P.GroupPlots('{{a}}'), [(1, {})])",
+                       "run(P.GroupPlots(lambda v: v.nope), [1])", "run(P.GroupPlots('{{a}}', scale=1), [(1, {'a': 1})])"],
+        "GroupScale": ["P.GroupScale('x')([1])", "P.GroupScale(1)(5)", "P.GroupScale(1, allow_zero_scale=True, allow_unknown_scale=True)([1, 's'])",
+                       "P.GroupScale(lambda v: v.nope)([1])"],
+        "ISlice": ["P.ISlice('a')", "P.ISlice(1, 2, 0)"],
+        "MapGroup": ["P.MapGroup(5)", "P.MapGroup(abs, nope=1)", "run(P.MapGroup(abs), [([1, 2], {'group': [{}]})])",
+                     "run(P.MapGroup(lambda v: v), [([1, 2], {'group': [{'a': 1}, {'a': 1}]})])",
+                     "run(P.MapGroup(M('lena.core').Run(lambda v: v, run=lambda fl: iter(()))), [([1], {'group': [{}]})])"],
+        "Print": ["P.Print(transform=5)", "P.Print(transform=lambda v: v.nope)(1)"],
+        "Progress": ["P.Progress(5)", "run(P.Progress(), [1, 2])"],
+        "Reverse": ["run(P.Reverse(), 5)"],
+        "RunIf": ["P.RunIf(5, abs)", "P.RunIf(int, 5)", "P.RunIf(int)", "run(P.RunIf(" + _BADPRED + ", abs), [1])"],
+        "RunningChunkBy": ["P.RunningChunkBy(0)", "P.RunningChunkBy('a')", "run(P.RunningChunkBy(2, from_iterable=True), [1, 2])"],
+        "Slice": ["P.Slice()", "P.Slice('a')", "P.Slice(1, 2, 0)", "P.Slice(-1).fill_into(" + _FC2 + ", 1)", "P.Slice(1, 2, 3, 4)"],
+        "StoreFilled": ["P.StoreFilled(5)", "fc(P.StoreFilled(yield_as_a_group=False), [1, 2])"],
+        "Zip": ["P.Zip(5)", "P.Zip([5])", "P.Zip([abs, " + _FC2 + "])", "P.Zip([abs], fields=['a', 'b'])", "P.Zip([abs], name=5)",
+                "P.Zip([" + _FC2 + "], name='z', fields=['a']).fill(1)", "fc(P.Zip([" + _FC2 + ", " + _FC2 + "]), [1])"],
+        "get_context": ["P.get_context((1, 2, 3))"],
+        "group_plots": ["P.group_plots(5)", "P.group_plots([])"],
+        "scale_to": ["P.scale_to('x', [1])", "P.scale_to(1, [1])", "P.scale_to(1, ['s'], allow_unknown_scale=True)"],
+        "seq_map": ["P.seq_map(5, [1])", "P.seq_map(M('lena.core').Sequence(lambda v: v), 5)",
+                    "P.seq_map(M('lena.core').Sequence(M('lena.core').Run(abs, run=lambda fl: iter(()))), [1])"],
+    },
+    "lena.input": {
+        "ReadROOTFile": ["(fake_root(), P.ReadROOTFile(keys=5))[1]", "(fake_root(), P.ReadROOTFile(keys=[1]))[1]",
+                         "(fake_root(), P.ReadROOTFile(keys=['a'], raise_on_missing=True))[1]"],
+        "ReadROOTTree": ["(fake_root(), P.ReadROOTTree(leaves=5))[1]", "(fake_root(), P.ReadROOTTree(leaves=[1]))[1]",
+                         "(fake_root(), P.ReadROOTTree(leaves=['x'], get_entries=abs))[1]", "(fake_root(), P.ReadROOTTree(get_entries=5))[1]",
+                         "(fake_root(), P.ReadROOTTree())[1]"],
+    },
+    "lena.math": {
+        "Mean": ["P.Mean(sum_seq=abs)", "fc(P.Mean(pass_on_empty=True), [])", "fc(P.Mean(), ['s'])", "(lambda m: (m.fill(1), m.reset(), fc(m, [])))(P.Mean(pass_on_empty=True))"],
+        "Sum": ["P.Sum('x')", "fc(P.Sum(), ['s'])", "(lambda m: (m.fill(1), m.reset(), fc(m, [2])))(P.Sum())"],
+        "DSum": ["fc(P.DSum(), ['s'])", "P.DSum('x')", "(lambda m: (m.fill(1), m.reset(), fc(m, [2])))(P.DSum())"],
+        "VarianceMeanCount": ["P.VarianceMeanCount(sum_sq=5)", "P.VarianceMeanCount(sum_=abs)", "fc(P.VarianceMeanCount(corrected=True), [1])",
+                              "fc(P.VarianceMeanCount(pass_on_empty=True), [])", "fc(P.VarianceMeanCount(), ['s'])"],
+        "Vectorize": ["P.Vectorize(P.Sum())", "P.Vectorize(P.Sum(), dim='x')", "P.Vectorize(abs, dim=2)", "fc(P.Vectorize(P.Sum(), dim=2), [(1, 2, 3)])",
+                      "fc(P.Vectorize(P.Sum(), dim=2, construct=5), [(1, 2)])", "fc(P.Vectorize([P.Sum(), P.Sum()]), [(1, 2)])",
+                      "fc(P.Vectorize(P.Mean(), dim=2), [])", "(lambda v: (v.fill((1, 2)), v.reset(), fc(v, [(3, 4)])))(P.Vectorize(P.Sum(), dim=2))"],
+        "clip": ["P.clip(5, 5)", "P.clip('a', (0, 1))", "P.clip(5, (0, 1, 2))"],
+        "flatten": ["P.flatten(5)"],
+        "isclose": ["P.isclose('a', 1)", "P.isclose(1, 1, abs_tol=-1)"],
+        "md_map": ["P.md_map(abs, 5)", "P.md_map(5, [1])"],
+        "mesh": ["P.mesh(5, 2)", "P.mesh((0, 1), 0)", "P.mesh(((0, 1), (0, 2)), 2)", "P.mesh((1, 0), 2)"],
+        "refine_mesh": ["P.refine_mesh(5, 2)", "P.refine_mesh([0, 1], 0)"],
+        "vector3": ["P.vector3(1, 2)", "P.vector3(1, 2, 2) / 0", "P.vector3(1, 2, 2)[5]",
+                    "P.vector3(0, 0, 0).cosine(P.vector3(1, 0, 0))", "P.vector3.fromspherical(1, 2)", "P.vector3(1, 2, 2).rotate(1, 5)",
+                    "P.vector3(1, 2, 2).proj(P.vector3(0, 0, 0))", "P.vector3(1, 2, 2) + 1", "P.vector3('a', 'b', 'c').getr()",
+                    "P.vector3(0, 0, 0).getphi()", "P.vector3(1, 2, 2).norm()", "P.vector3(0, 0, 0).norm()"],
+    },
+    "lena.meta": {
+        "SetContext": ["P.SetContext(5, 1)", "P.SetContext('a', '{{x}}')._get_context()", "P.SetContext('a', '{{x')",
+                       "M('lena.core').Sequence(P.SetContext('a', '{{x}}'), abs)", "repr(P.SetContext('a', '{{x}}'))"],
+        "StoreContext": ["P.StoreContext(5)", "repr(P.StoreContext())"],
+        "UpdateContextFromStatic": ["run(P.UpdateContextFromStatic(), [(1, {})])",
+                                    "run(M('lena.core').Sequence(P.SetContext('a', 1), M('lena.core').Split([(P.SetContext('b', 2), P.UpdateContextFromStatic())])), [(1, {})])"],
+    },
+    "lena.output": {
+        "LaTeXToPDF": ["P.LaTeXToPDF(create_command=5)", "run(P.LaTeXToPDF(verbose=0, create_command=lambda *a: ['false']), [('a.tex', {'output': {'filetype': 'tex'}})])",
+                       "run(P.LaTeXToPDF(verbose=0, create_command=lambda *a: 5), [('a.tex', {'output': {'filetype': 'tex'}})])"],
+        "MakeFilename": ["P.MakeFilename(5)", "P.MakeFilename('{{a')", "P.MakeFilename('f', overwrite=5)((1, {'output': {'filename': 'g'}}))",
+                         "P.MakeFilename(prefix='p_{{a}}', suffix='_s')((1, {'output': {'filename': 'g'}}))", "P.MakeFilename(dirname='{{a}}', fileext='{{b}}')((1, {'a': 1}))",
+                         "P.MakeFilename('f')(1)", "P.MakeFilename('f{{a}}')._set_context({'a': 1})", "repr(P.MakeFilename('f', prefix='p'))"],
+        "PDFToPNG": ["run(P.PDFToPNG(verbose=False), [(5, {'output': {'filetype': 'pdf'}})])", "P.PDFToPNG(format=5)"],
+        "RenderLaTeX": ["P.RenderLaTeX(select_data=5)", "P.RenderLaTeX('t.tex', template_dir='x', environment=5)",
+                        "run(P.RenderLaTeX(), [('f.csv', {'output': {'filetype': 'csv'}})])",
+                        "run(P.RenderLaTeX('missing.tex'), [('f.csv', {'output': {'filetype': 'csv'}})])",
+                        "run(P.RenderLaTeX(lambda v: v.nope), [('f.csv', {'output': {'filetype': 'csv'}})])"],
+        "ToCSV": ["P.ToCSV(separator=5)", "run(P.ToCSV(header=5), [" + _H1 + "])",
+                  "run(P.ToCSV(), [type('R', (), {'rows': lambda s: [(1, 2)]})()])", "run(P.ToCSV(), [type('R', (), {'rows': lambda s: 5})()])",
+                  "run(P.ToCSV(), [(" + _H1 + ", {'output': {'duplicate_last_bin': False}})])"],
+        "Write": ["P.Write('o', existing_unchanged=True, overwrite=True)", "run(P.Write('o', verbose=False), [('t', {'output': {'filename': ''}})])",
+                  "run(P.Write('o', verbose=False), [('t', {'output': {'filename': '/abs'}})])", "run(P.Write('o{{a}}', verbose=False), ['t'])",
+                  "P.Write('o{{a')", "run(P.Write('o', verbose=False), [(type('W', (), {'write': lambda s, p: 1 / 0})(), {})])",
+                  "P.Write('o{{a}}')._set_context({'a': 1})"],
+        "Writer": ["P.Writer()", "P.Writer(5)"],
+        "WriteROOTTree": ["(fake_root(), P.WriteROOTTree(5, 'f.root'))[1]", "(fake_root(), P.WriteROOTTree('t', ()))[1]",
+                          "(fake_root(), P.WriteROOTTree('t', ('f.root', 'nope')))[1]", "(fake_root(), P.WriteROOTTree('t', ''))[1]",
+                          "(fake_root(), P.WriteROOTTree('', 'f.root'))[1]"],
+        "hist1d_to_csv": ["list(P.hist1d_to_csv(5))", "list(P.hist1d_to_csv(" + _H1 + ", header=5))"],
+        "hist2d_to_csv": ["list(P.hist2d_to_csv(" + _H1 + "))"],
+        "iterable_to_table": ["list(P.iterable_to_table(5))", "list(P.iterable_to_table([(1, 2)], format_=5))",
+                              "list(P.iterable_to_table([(1, 2)], format_=('{}',), header='h', footer='f'))",
+                              "list(P.iterable_to_table([(1, 2)], header='{}', header_fields=()))"],
+    },
+    "lena.structures": {
+        "histogram": ["P.histogram(5)", "P.histogram([0, 1], [1, 2])", "P.histogram([[0, 1], [1, 0]])", "P.histogram([0, 1, 2]) == 5",
+                      "P.histogram([0, 1, 2], [3, 4]).scale(0)", "P.histogram([0, 1, 2]).scale(5)", "P.histogram([0, 1, 2], [3, 4]) + 5",
+                      "P.histogram([0, 1, 2], [3, 4]) + P.histogram([0, 1, 3], [3, 4])", "P.histogram([0, 1, 2]).fill('s')",
+                      "P.histogram([0, 1, 2]).fill((1, 2))", "P.histogram([0, 1, 2], [3, 4]).set_nevents(0)", "P.histogram([0, 1, 2], [3, 4], initial_value='x')"],
+        "Histogram": ["P.Histogram(5)", "P.Histogram([0, 1], bins=[1, 2])", "P.Histogram([0, 1, 2], make_bins=5)", "fc(P.Histogram([0, 1, 2]), ['s'])",
+                      "(lambda h: (h.fill(0.5), h.reset(), fc(h, [1.5])))(P.Histogram([0, 1, 2]))", "P.Histogram([0, 1, 2], make_bins=lambda: 5, bins=[1, 2])"],
+        "graph": ["P.graph(5)", "P.graph([[0, 1], [2, 3]], field_names='x')", "P.graph([[0, 1], [2, 3]], field_names=('x', 'x'))",
+                  "P.graph([[0, 1], [2, 3]], field_names=('x', 'y', 'z'))", "P.graph([[0, 1], [2, 3], [1, 1]], field_names=('x', 'y', 'error_z'))",
+                  "P.graph([[0, 1], [2, 3], [1, 1]], field_names=('x', 'y', 'error_x_y_low'))", "P.graph([[0, 1], [0, 0]]).scale(5)",
+                  "P.graph([[0, 1], [2, 3]], scale=2).scale(4)", "P.graph([[0, 1], [2, 3]]) + 5", "P.graph([[0, 1], [2, 3]]) + P.graph([[0, 2], [2, 3]])",
+                  "P.graph([[0, 1], [2, 3]], field_names='x y') == 5", "P.graph([[0, 1], [2, 3]]).nope"],
+        "Graph": ["P.Graph(5)", "fc(P.Graph(), [5])", "fc(P.Graph(scale=True), [(1, 2)])", "P.Graph(points=[(1, 2)], scale=2).scale(1)",
+                  "P.Graph(points=[(1, 2)]).scale(1)", "P.Graph() == 5"],
+        "HistToGraph": ["P.HistToGraph(make_value=5)", "P.HistToGraph(field_names=5)", "run(P.HistToGraph(field_names=('x',)), [P.histogram([0, 1, 2], [3, 4])])",
+                        "run(P.HistToGraph(), [P.histogram([[0, 1], [0, 1]], [[5]])])", "run(P.HistToGraph(scale=True), [P.histogram([0, 1, 2], [3, 4])])",
+                        "run(P.HistToGraph(M('lena.variables').Variable('v', lambda b: b.nope)), [P.histogram([0, 1, 2], [3, 4])])"],
+        "IterateBins": ["P.IterateBins(create_edges_str=5)", "P.IterateBins(select_bins=5)",
+                        "run(P.IterateBins(create_edges_str=lambda e, var_context: e.nope), [P.histogram([0, 1], [P.histogram([0, 1], [1])])])"],
+        "MapBins": ["P.MapBins(5)", "P.MapBins(abs, select_bins=5)", "run(P.MapBins(lambda b: b.nope), [P.histogram([0, 1, 2], [3, 4])])",
+                    "run(P.MapBins(abs, get_example_bin=lambda h: h.nope), [P.histogram([0, 1, 2], [3, 4])])"],
+        "SplitIntoBins": ["P.SplitIntoBins(M('lena.math').Sum(), 5, [0, 1])", "P.SplitIntoBins(M('lena.math').Sum(), M('lena.variables').Variable('x', abs), [1, 0])",
+                          "fc(P.SplitIntoBins(M('lena.math').Sum(), M('lena.variables').Variable('x', lambda v: v.nope), [0, 1, 2]), [0.5])",
+                          "fc(P.SplitIntoBins(M('lena.math').Mean(), M('lena.variables').Variable('x', lambda v: v), [0, 1, 2]), [0.5])",
+                          "fc(P.SplitIntoBins(M('lena.math').Sum(), M('lena.variables').Variable('x', lambda v: v), [0, 1, 2]), [5, 's'])"],
+        "NumpyHistogram": ["P.NumpyHistogram(5)"],
+        "cell_to_string": ["P.cell_to_string(5)", "P.cell_to_string([(0, 1)], var_context={'name': 'x'}, coord_names=['a', 'b'])",
+                           "P.cell_to_string([(0, 1), (1, 2)], var_context={'combine': [{'name': 'x'}]})", "P.cell_to_string([(0, 1)], coord_fmt='{')"],
+        "check_edges_increasing": ["P.check_edges_increasing(5)", "P.check_edges_increasing([[0, 1], [1]])", "P.check_edges_increasing([])"],
+        "get_bin_edges": ["P.get_bin_edges(5, [0, 1])", "P.get_bin_edges((0, 5), [[0, 1], [0, 1]])", "P.get_bin_edges('a', [0, 1])"],
+        "get_bin_on_index": ["P.get_bin_on_index(5, [1])", "P.get_bin_on_index((0, 0, 0), [[1]])", "P.get_bin_on_index('a', [1])"],
+        "get_bin_on_value": ["P.get_bin_on_value('a', [0, 1])", "P.get_bin_on_value((1,), [[0, 1], [0, 1]])", "P.get_bin_on_value(5, 5)"],
+        "get_bin_on_value_1d": ["P.get_bin_on_value_1d('a', [0, 1])", "P.get_bin_on_value_1d(5, [])", "P.get_bin_on_value_1d(float('nan'), [0, 1])"],
+        "get_example_bin": ["P.get_example_bin(5)", "P.get_example_bin([])"],
+        "hist_to_graph": ["P.hist_to_graph(5)", "P.hist_to_graph(P.histogram([0, 1, 2], [3, 4]), make_value=lambda b: (b, 1), field_names=('x', 'y'))",
+                          "P.hist_to_graph(P.histogram([0, 1, 2], [3, 4]), field_names='x')", "P.hist_to_graph(P.histogram([0, 1, 2], [3, 4]), scale='x')",
+                          "P.hist_to_graph(P.histogram([[0, 1], [0, 1]], [[5]]), field_names=('x', 'y'))"],
+        "init_bins": ["P.init_bins(5)", "P.init_bins([[0, 1], [0, 1, 2]], value=[], deepcopy=True)"],
+        "integral": ["P.integral(5, 5)", "P.integral([3, 4], [[0, 1, 2]])", "P.integral([[1]], [[0, 1], [0, 2]])"],
+        "iter_bins": ["list(P.iter_bins(5))"],
+        "iter_bins_with_edges": ["list(P.iter_bins_with_edges(5, 5))", "list(P.iter_bins_with_edges([1, 2], [0, 1]))"],
+        "iter_cells": ["list(P.iter_cells(5))", "list(P.iter_cells(P.histogram([0, 1, 2], [3, 4]), ranges=[(0, 1)], coord_ranges=[(0, 1)]))",
+                       "list(P.iter_cells(P.histogram([0, 1, 2], [3, 4]), ranges=[(0, 1)]))", "list(P.iter_cells(P.histogram([0, 1, 2], [3, 4]), coord_ranges=[(0.5, 5)]))",
+                       "list(P.iter_cells(P.histogram([0, 1, 2], [3, 4]), ranges=[(0, 1), (0, 1)]))"],
+        "make_hist_context": ["P.make_hist_context(5, {})"],
+        "unify_1_md": ["P.unify_1_md(5, 5)", "P.unify_1_md([[1]], [[0, 1], [0, 1]])"],
+        "root_graph_errors": ["(fake_root(), P.root_graph_errors(5))[1]"],
+        "ROOTGraphErrors": ["(fake_root(), P.ROOTGraphErrors()(5))[1]"],
+    },
+    "lena.variables": {
+        "Variable": ["P.Variable(5, abs)", "P.Variable('x', abs, type=5)", "P.Variable('x', abs).nope", "P.Variable('x', lambda v: v.nope)(1)",
+                     "P.Variable('x', abs, unit='m').unit", "repr(P.Variable('x', abs, latex_name='X'))", "P.Variable('x', abs)['y']",
+                     "P.Variable('x', abs).get('y')", "P.Variable('x', abs).get('y', 1)"],
+        "Compose": ["P.Compose(5)", "P.Compose(P.Variable('a', abs), 5)", "P.Compose(P.Variable('a', abs), name=5)",
+                    "P.Compose(P.Variable('a', lambda v: v.nope), P.Variable('b', abs))(1)", "P.Compose(P.Variable('a', abs), P.Variable('b', abs), latex_name='L')((-1, {'variable': {'name': 'z'}}))",
+                    "repr(P.Compose(P.Variable('a', abs), P.Variable('b', abs)))"],
+        "Combine": ["P.Combine()", "P.Combine(P.Variable('a', abs), name=5)", "P.Combine(P.Variable('a', abs), P.Variable('b', abs), nope=1)(1)",
+                    "P.Combine(P.Variable('a', abs), P.Variable('b', abs))[5]", "P.Combine(P.Variable('a', abs), P.Variable('b', abs))[0]",
+                    "P.Combine(P.Variable('a', abs), P.Variable('b', abs)).dim", "P.Combine(P.Variable('a', lambda v: v.nope))(1)",
+                    "repr(P.Combine(P.Variable('a', abs)))"],
+        "abs": ["P.abs(P.Variable('a', lambda v: v, getter=5))", "P.abs(P.Variable('a', lambda v: v), name=5)(-1)",
+                "P.abs(P.Combine(P.Variable('a', lambda v: v)))(-1)"],
+        "Cm": ["P.Cm(5)", "P.Cm(P.Variable('a', lambda v: v, unit='cm'))(10)", "P.Cm(P.Variable('a', lambda v: v, unit='m'))"],
+    },
+}
+
+
 def smoke_items(pkg, names):
     """[(key, code)] for the public names of a subpackage; names without an entry get the generic
     smoke: the attribute itself, and a call without arguments if it is callable."""
@@ -413,6 +654,7 @@ def smoke_items(pkg, names):
             lst.append((n + "#call0", "P.%s() if callable(P.%s) else P.%s" % (n, n, n)))
         else:
             lst.extend(("%s#%d" % (n, k), c) for k, c in enumerate(codes))
+        lst.extend(("%s#e%d" % (n, k), c) for k, c in enumerate(SMOKE_ERRORS.get(pkg, {}).get(n, [])))
         items[n] = lst
     return items
 
